@@ -103,6 +103,7 @@ def run(crate, harnesses, timeout=1800, extra=None, jobs=None):
 def parse(out):
     res = {}
     cur = None
+    out = re.sub(r"(?m)^Thread \d+: ", "", out)
     blocks = re.split(r"(?m)^Checking harness ", out)
     for b in blocks[1:]:
         name = b.split("...", 1)[0].strip()
